@@ -119,7 +119,12 @@ def gen_random(rng, depth, maxb, nid):
     ids = itertools.count(nid)
 
     def mkbatch(nmin, nmax):
-        return [[val(), next(ids)] for _ in range(rng.randint(nmin, nmax))]
+        # identities are handed out in a random order inside the batch: with tied likelihoods the order in which
+        # np.argsort(order="logL") leaves the samples is then NOT the input order
+        b = [[val(), next(ids)] for _ in range(rng.randint(nmin, nmax))]
+        idl = [i for _, i in b]
+        rng.shuffle(idl)
+        return [[k, i] for (k, _), i in zip(b, idl)]
 
     ops = [["init", mkbatch(0 if rng.random() < 0.1 else 1, maxb)]]
     for _ in range(depth):
@@ -144,7 +149,10 @@ def gen_sampler_like(rng, levels, nlive):
     alph = [rng.choice([-3.0, -1.0, 0.0, 0.5, 2.0, 2.0, 7.0]) for _ in range(5)]
 
     def mk(n):
-        return [[rng.choice(alph) if rng.random() < 0.7 else rng.uniform(-5, 10), next(ids)] for _ in range(n)]
+        b = [[rng.choice(alph) if rng.random() < 0.7 else rng.uniform(-5, 10), next(ids)] for _ in range(n)]
+        idl = [i for _, i in b]
+        rng.shuffle(idl)
+        return [[k, i] for (k, _), i in zip(b, idl)]
 
     ops = [["init", mk(nlive)]]
     live_keys = sorted(k for k, _ in ops[0][1])
@@ -178,10 +186,16 @@ def gen_exhaustive(depth, rng=None, sample=None):
             for strict in (False, True):
                 for repl in (False, True):
                     ids = itertools.count(0)
-                    ops = [["init", [[k, next(ids)] for k in ini]]]
+
+                    def lab(keys):
+                        # descending identities inside a batch (ties then sort against the input order)
+                        il = [next(ids) for _ in keys]
+                        return [[k, i] for k, i in zip(keys, reversed(il))]
+
+                    ops = [["init", lab(ini)]]
                     for o in seq:
                         if o[0] == "add":
-                            ops.append(["add", [[k, next(ids)] for k in o[1]]])
+                            ops.append(["add", lab(o[1])])
                         elif o[0] == "thr":
                             ops.append(["thr", o[1]])
                         else:
